@@ -656,6 +656,37 @@ Section Paths.
       apply (sem_path_nsem es t c2 t2 c2' Hc2 Hp2) in H2. rewrite Hn in H2.
       symmetry. eapply names_forgotten_n; eassumption.
   Qed.
+  (* --- the result of a lossless path, exactly; the direct conversion --- *)
+
+  (* a path without table -> nested / long -> nested returns the rendering, in the end
+     representation, of the ORIGINAL data, under the names computed by the bookkeeping [nsem_path],
+     which never looks at the data *)
+  Theorem lossless_path_result es t c t' c' :
+    cwf c -> path_ok es (t, c) -> forallb lossless es = true ->
+    sem_path es (t, c) = Some (t', c') ->
+    run_path es (render t c) = Ok (render t' (mkC (c_names c') (c_data c))) /\
+    nsem_path es (t, c_names c, ncols_of c) = Some (t', c_names c', ncols_of c).
+  Proof.
+    intros Hc Hp Hl H. pose proof (lossless_path_data es t c t' c' Hl H) as Hd. split.
+    - rewrite (path_factor es t c Hc Hp), H. cbn [result]. rewrite <- Hd. destruct c'; reflexivity.
+    - rewrite (sem_path_nsem es t c t' c' Hc Hp H). unfold ncols_of. rewrite Hd. reflexivity.
+  Qed.
+
+  (* every lossless path between two representations returns what the direct conversion returns,
+     as soon as both end with the same names *)
+  Theorem path_equals_direct es e t c t' c' c1 :
+    cwf c -> path_ok es (t, c) -> edge_ok e c ->
+    forallb lossless es = true -> lossless e = true ->
+    sem_path es (t, c) = Some (t', c') -> sem e (t, c) = Some (t', c1) ->
+    c_names c1 = c_names c' ->
+    run_path es (render t c) = apply_edge e (render t c).
+  Proof.
+    intros Hc Hp He Hl Hle H H1 Hn.
+    destruct (lossless_path_result es t c t' c' Hc Hp Hl H) as [Hr _]. rewrite Hr.
+    destruct (edge_factor e t c Hc He) as [Hf _]. rewrite Hf, H1. cbn [result].
+    pose proof (sem_lossless_data e t c t' c1 Hle H1) as Hd.
+    rewrite <- Hn, <- Hd. destruct c1; reflexivity.
+  Qed.
 End Paths.
 
 (* ---------------------------------------------------------------------------------------------- *)
